@@ -379,7 +379,7 @@ class GriffeLoader:
                 obj.del_member(name)
 
         # Finally we process the collected objects.
-        for new_member, alias_lineno, alias_endlineno in expanded:
+        for new_member, alias_lineno, alias_endlineno, runtime_import in expanded:
             overwrite = False
             already_present = new_member.name in obj.members
             own_path = f"{obj.path}.{new_member.name}"
@@ -391,7 +391,9 @@ class GriffeLoader:
             if already_present:
                 old_member = obj.get_member(new_member.name)
                 old_lineno = old_member.alias_lineno if old_member.is_alias else old_member.lineno
-                overwrite = alias_lineno > (old_lineno or 0)  # type: ignore[operator]
+                # A wildcard import that is not executed at runtime (it comes from stubs merged into the module, whose line
+                # numbers are those of another file, or it is type-guarded) never takes precedence over what is there.
+                overwrite = runtime_import and alias_lineno > (old_lineno or 0)  # type: ignore[operator]
 
             # 1. If the expanded member is an alias with a target path equal to its own path, we stop.
             #    This situation can arise because of Griffe's mishandling of (abusive) wildcard imports.
@@ -730,9 +732,9 @@ class GriffeLoader:
         self,
         wildcard_obj: Alias,
         module: Object | Alias,
-    ) -> list[tuple[Object | Alias, int | None, int | None]]:
+    ) -> list[tuple[Object | Alias, int | None, int | None, bool]]:
         return [
-            (imported_member, wildcard_obj.alias_lineno, wildcard_obj.alias_endlineno)
+            (imported_member, wildcard_obj.alias_lineno, wildcard_obj.alias_endlineno, wildcard_obj.runtime)
             for imported_member in module.members.values()
             # Wildcard imports of the module itself are not expanded yet when it (indirectly) imports from itself:
             # these placeholders are not objects, they must never be exposed.
